@@ -1,30 +1,49 @@
 #!/bin/bash
-# bin/seedtest.sh [--tier T] [--checks "C01 C09"] <seed id>...
-# For every seeded change /verif/seeded/<id>/patch.diff: apply it to /repo, run the named checks
-# (default: the check of the same property), undo it straight afterwards. A check "catches" the
-# change when it exits 1 with a VIOLATION line. /repo is always restored (trap).
-TIER=quick; CHECKS=""
-while [ $# -gt 0 ]; do case "$1" in --tier) TIER=$2; shift 2;; --checks) CHECKS=$2; shift 2;; *) break;; esac; done
+# bin/seedtest.sh [--tier T] [--checks "C01 C09"] [--in-place] <seed id>...
+# For every seeded change /verif/seeded/<id>/patch.diff (or /verif/mutants/<id>.diff): apply it,
+# run the named checks (default: the check of the same property), undo it. A check "catches" the
+# change when it exits 1 with a VIOLATION line.
+#   default    : the change is applied to a scratch git worktree of /repo under $TMPDIR (removed
+#                afterwards, together with its build output); /repo itself is not touched, so
+#                several seed tests and other checks can run at the same time;
+#   --in-place : git -C /repo apply <patch>, run, git -C /repo checkout -- . (also on abort).
+V=$(cd "$(dirname "${BASH_SOURCE[0]}")/.." && pwd)
+TIER=quick; CHECKS=""; INPLACE=0
+while [ $# -gt 0 ]; do case "$1" in --tier) TIER=$2; shift 2;; --checks) CHECKS=$2; shift 2;; --in-place) INPLACE=1; shift;; *) break;; esac; done
 export GOFLAGS=-mod=mod GOPROXY=off GOSUMDB=off GOTOOLCHAIN=local
-restore() { git -C /repo checkout -- . ; }
-trap restore EXIT
-mkdir -p /verif/.work/logs
-if [ -n "$(git -C /repo status --porcelain)" ]; then echo "/repo is not clean"; exit 2; fi
+mkdir -p $V/.work/logs
+SCR=""
+cleanup() {
+  if [ $INPLACE = 1 ]; then git -C /repo checkout -- . ; fi
+  if [ -n "$SCR" ]; then git -C /repo worktree remove --force $SCR 2>/dev/null; rm -rf $SCR; rm -rf $V/.work/scratch-*-$$ ; fi
+}
+trap cleanup EXIT
+if [ $INPLACE = 1 ]; then
+  [ -n "$(git -C /repo status --porcelain)" ] && { echo "/repo is not clean"; exit 2; }
+  TARGET=/repo
+else
+  SCR=${TMPDIR:-/tmp}/verif-seed-$$
+  git -C /repo worktree add -q --detach $SCR HEAD || exit 2
+  TARGET=$SCR
+  export VERIF_REPO=$SCR
+fi
 for id in "$@"; do
-  p=/verif/seeded/$id/patch.diff
-  [ -f $p ] || p=/verif/mutants/$id.diff
+  p=$V/seeded/$id/patch.diff
+  [ -f $p ] || p=$V/mutants/$id.diff
   [ -f $p ] || { echo "$id: no patch"; continue; }
-  git -C /repo apply $p || { echo "$id: patch does not apply"; continue; }
+  git -C $TARGET apply $p || { echo "$id: patch does not apply"; continue; }
   prop=$(echo $id | cut -c1-3)
   for c in ${CHECKS:-$prop}; do
     t0=$(date +%s)
-    mkdir -p /verif/.work/logs
-    bash /verif/bin/check $c --tier $TIER > /verif/.work/logs/seed.$id.$c.log 2>&1
+    mkdir -p $V/.work/logs
+    bash $V/bin/check $c --tier $TIER > $V/.work/logs/seed.$id.$c.log 2>&1
     rc=$?
     t1=$(date +%s)
-    n=$(grep -c '^VIOLATION' /verif/.work/logs/seed.$id.$c.log)
+    n=$(grep -c '^VIOLATION' $V/.work/logs/seed.$id.$c.log)
     case $rc in 1) v=CAUGHT;; 0) v=MISSED;; *) v=BROKEN;; esac
-    echo "$id check=$c $v rc=$rc violations=$n $((t1-t0))s :: $(grep -m1 '^VIOLATION' /verif/.work/logs/seed.$id.$c.log | sed 's/.*key=//' | cut -c1-200)"
+    echo "$id check=$c $v rc=$rc violations=$n $((t1-t0))s :: $(grep -m1 '^VIOLATION' $V/.work/logs/seed.$id.$c.log | sed 's/.*key=//' | cut -c1-200)"
   done
-  restore
+  git -C $TARGET checkout -- .
+  # build output of this variant of the scratch tree
+  [ $INPLACE = 0 ] && for d in $V/.work/scratch-*/; do grep -qs "$SCR" $d/overlay.json && rm -rf $d; done
 done
